@@ -355,6 +355,14 @@ func c34Directed(rep *vfReport, r *vfRng) (ops, out []string) {
 func TestVerifC34(t *testing.T) {
 	rep := vfNewReport("C34", "A: generated sequential op sequences (40-200 ops) over CheckAndSet, MultiRSW (try and blocking acquires, releases incl. protocol violations, upgrade) and ReadyTarget (subscribe/unsubscribe/signal/reset over indices 0-11), diffed exactly, non-trivial when a conflict, a really blocked acquirer and a woken waiter all occurred; B: concurrent runs with 2-4 goroutines per primitive and critical-section instrumentation")
 	defer rep.Write()
+	// checkpoint: findings so far plus a crash marker are on disk while goroutines that could
+	// panic the process are running; the final Write (deferred) replaces it
+	checkpoint := func() {
+		n := len(rep.OracleFailures)
+		rep.OracleFailures = append(rep.OracleFailures, vfOracleFailure{"process-crashed-during-run", "the test process ended before the run finished (panic in a non-test goroutine)", nil})
+		rep.Write()
+		rep.OracleFailures = rep.OracleFailures[:n]
+	}
 	r := vfNewRng(34)
 	var allOps, allImpl [][]string
 	nA := vfScale(300, 30000)
@@ -376,6 +384,7 @@ func TestVerifC34(t *testing.T) {
 		}
 	}
 
+	checkpoint()
 	// ---- directed: parked blocking writers ----------------------------------------
 	nD := vfScale(40, 1500)
 	for i := 0; i < nD; i++ {
@@ -389,6 +398,7 @@ func TestVerifC34(t *testing.T) {
 	// ---- B: concurrent runs ------------------------------------------------------
 	nB := vfScale(40, 2500)
 	for run := 0; run < nB; run++ {
+		checkpoint()
 		g := 2 + r.Intn(3)
 		iters := vfScale(150, 400)
 		seeds := make([]uint64, g)
